@@ -140,9 +140,12 @@ enum Advance<T> {
 type AppTaskOut = (StreamSubscription<String>, Result<(), AckedError>);
 
 pub struct Inc {
+    #[allow(dead_code)]
     pub id: u64,
     gate: Arc<Gate>,
     ids: Ids,
+    /// kept alive for the lifetime of the incarnation
+    #[allow(dead_code)]
     node: Node,
     store: SqliteStore,
     tx: StreamPublisher<String>,
@@ -154,6 +157,8 @@ pub struct Inc {
     controlled: bool,
     pub pre: Option<Value>,
     explicit: bool,
+    /// import sessions opened on this stream so far (= session id of the next one)
+    sessions: u64,
 }
 
 impl Inc {
@@ -246,6 +251,7 @@ impl Inc {
             controlled,
             pre,
             explicit: matches!(policy, AckPolicy::Explicit),
+            sessions: 0,
         };
         if controlled {
             // the stream task parks at the first replayed operation or at the top of its loop
@@ -275,21 +281,9 @@ impl Inc {
             .await;
     }
 
-    pub fn ids(&self) -> &Ids {
-        &self.ids
-    }
 
-    pub fn publisher(&self) -> StreamPublisher<String> {
-        self.tx.clone()
-    }
 
-    pub fn take_rx(&mut self) -> Option<StreamSubscription<String>> {
-        self.rx.take()
-    }
 
-    pub fn node_id(&self) -> VerifyingKey {
-        self.node.id()
-    }
 
     pub fn remote_op(&self, a: &str, seq: i64) -> Option<Operation> {
         self.remote.get(&(a.to_string(), seq)).cloned()
@@ -525,6 +519,7 @@ impl Inc {
             }
         }
         self.imp_tx = Some(tx);
+        self.sessions += 1;
         Ok(())
     }
 
@@ -537,9 +532,9 @@ impl Inc {
         self.imp_tx.as_ref().expect("session").send(op).map_err(|_| "import stream closed".to_string())
     }
 
-    /// Free-running mode: receives everything up to the end of the replay. The end is marked by
-    /// the ImportStarted event of an (empty) import session, which the stream task only handles
-    /// once `replay_log_ranges` has returned.
+    /// Receives everything the stream has for the application up to "now" without schedule
+    /// control. "Now" is marked by the ImportStarted event of a fresh (empty) import session, which
+    /// the stream task only handles in its main loop, i.e. after `replay_log_ranges` has returned.
     pub async fn drain_replay(&mut self) -> Result<Value, String> {
         let mut rx = self.rx.take().ok_or("application is busy")?;
         let (tx, orx) = mpsc::unbounded_channel::<Operation>();
@@ -549,28 +544,61 @@ impl Inc {
                 let _ = fut.await;
             }
         });
+        let my_session = self.sessions;
+        self.sessions += 1;
         self.imp_tx = Some(tx);
         let mut replayed = Vec::new();
         let mut others = Vec::new();
         let mut markers = Vec::new();
+        let mut events = Vec::new();
+        let mut seen_end = false;
         let fut = async {
             while let Some(ev) = rx.next().await {
-                if matches!(ev, StreamEvent::ImportStarted { .. }) {
+                if let StreamEvent::ImportStarted { session_id } = &ev
+                    && *session_id == my_session
+                {
                     break;
                 }
                 match event_json(&self.ids, &ev) {
-                    Some(v) if v["k"] == "op" => replayed.push(v["op"].clone()),
-                    Some(v) if v["k"] == "rs" || v["k"] == "re" => markers.push(v["k"].clone()),
-                    Some(v) => others.push(v),
+                    Some(v) => {
+                        events.push(v.clone());
+                        if v["k"] == "op" {
+                            if !seen_end {
+                                replayed.push(v["op"].clone());
+                            }
+                        } else if v["k"] == "rs" || v["k"] == "re" {
+                            if v["k"] == "re" {
+                                seen_end = true;
+                            }
+                            markers.push(v["k"].clone());
+                        } else {
+                            others.push(v);
+                        }
+                    }
                     None => {}
                 }
             }
         };
         if tokio::time::timeout(STUCK_AFTER, fut).await.is_err() {
-            return Err("stuck: replay did not end".into());
+            return Err("stuck: the stream never handled the marker import session".into());
         }
         self.rx = Some(rx);
-        Ok(json!({"replayed": replayed, "markers": markers, "others": others}))
+        Ok(json!({"replayed": replayed, "markers": markers, "others": others, "events": events}))
+    }
+
+    /// Lock-step was lost (the code took a different step than the specification): give up
+    /// schedule control, let everything run and report what the application receives, so that the
+    /// caller can still judge the replay at property level.
+    pub async fn settle(&mut self) -> Result<Value, String> {
+        self.gate.set_free();
+        self.controlled = false;
+        if let Some(h) = self.app_task.take() {
+            match tokio::time::timeout(STUCK_AFTER, h).await {
+                Ok(Ok((rx, _))) => self.rx = Some(rx),
+                _ => return Err("settle: application ack call did not return".into()),
+            }
+        }
+        self.drain_replay().await
     }
 
     /// Free-running mode: seeded random workload without schedule control. `emit` is called after
